@@ -8,6 +8,15 @@ TRUST = ("TLC; the reading of MCNP/TRIPOLI-4 semantics written down in DESIGN.md
          "(harness/vt4/shim.py) standing in for TatSu; the .t4 tokenizer and numeric SURF evaluator "
          "(harness/vt4/t4file.py); the concretiser that spells abstract decks as MCNP text")
 CHECKS = {
+ 'C04': dict(cat='model_checking', ref='6/C04',
+   text=("GenTr.tla enumerates (surface sample incl. one-sheet cones, tori, SQ/GQ, macrobodies) x (24 proper signed-"
+         "permutation rotations) x displacement x carrier (TR number on the surface, TRCL by number/inline/starred, implicit "
+         "surface 1000*c+s with both or only negative sense) x spelling (12, 13 with m=1, starred, two rows or two columns "
+         "with J); McnpSem.Locate carries the point into the auxiliary frame while the converter moves the surfaces, "
+         "TraceDeck.tla compares owners and the exact polynomial identity of TR-carrying surfaces. Abbreviated matrices "
+         "(9/6/5/3 supplied entries of rational rotations) go through normalize_transform() and TraceMatrix.tla checks the "
+         "completion predicate exactly (approximately for the irrational 3-entry completions)."),
+   technique='TLA+ spec of MCNP rigid motions (Geom/McnpSem, GenTr!IsCompletion) checked by TLC; generated decks and matrices replayed into the real code and validated by TLC'),
  'C03': dict(cat='model_checking', ref='6/C03',
    text=("GenBody.tla enumerates macrobody cards of every kind (axis-aligned and oblique frames, both handednesses, all "
          "orders of the edge vectors, both parameterisations of RHP/HEX, REC, ELL, both openings of TRC, ARB with permuted "
